@@ -2474,8 +2474,17 @@ func (h *ResponseHeader) writeTrailer(w *bufio.Writer) error {
 func (h *ResponseHeader) TrailerHeader() []byte {
 	h.bufV = h.bufV[:0]
 	for _, t := range h.trailer {
-		value := h.peek(t)
-		h.bufV = appendHeaderLine(h.bufV, t, value)
+		// A field that was added several times is sent with every value.
+		n := 0
+		for i := range h.h {
+			if bytes.Equal(h.h[i].key, t) {
+				h.bufV = appendHeaderLine(h.bufV, t, h.h[i].value)
+				n++
+			}
+		}
+		if n == 0 {
+			h.bufV = appendHeaderLine(h.bufV, t, h.peek(t))
+		}
 	}
 	h.bufV = append(h.bufV, strCRLF...)
 	return h.bufV
@@ -2606,8 +2615,17 @@ func (h *RequestHeader) writeTrailer(w *bufio.Writer) error {
 func (h *RequestHeader) TrailerHeader() []byte {
 	h.bufV = h.bufV[:0]
 	for _, t := range h.trailer {
-		value := h.peek(t)
-		h.bufV = appendHeaderLine(h.bufV, t, value)
+		// A field that was added several times is sent with every value.
+		n := 0
+		for i := range h.h {
+			if bytes.Equal(h.h[i].key, t) {
+				h.bufV = appendHeaderLine(h.bufV, t, h.h[i].value)
+				n++
+			}
+		}
+		if n == 0 {
+			h.bufV = appendHeaderLine(h.bufV, t, h.peek(t))
+		}
 	}
 	h.bufV = append(h.bufV, strCRLF...)
 	return h.bufV
